@@ -1,7 +1,7 @@
 (* C08 -- All dataset views agree with the stored feature values, incl. missing ones.
    Only statements + `exact` + Print Assumptions live here. Model: C08_Defs (imports the kernels translated from
    mask.h, datasource.{h,cpp}, dataset.cpp and the generator headers on every run). *)
-From Coq Require Import List ZArith Bool.
+From Coq Require Import List ZArith Bool Lia.
 From LNGen Require Import Src_c08.
 From LN Require Import C08_Defs C08_Proofs.
 Import ListNotations.
@@ -20,7 +20,182 @@ Theorem C08_mask : forall n m i j,
 Proof. exact t_mask. Qed.
 Print Assumptions C08_mask.
 
+(* storage layout chosen by resize(): every feature's row range has the feature's width, starts at >= 0, ends inside its
+   pool's total, and the ranges of two features sharing a pool are disjoint (the earlier one ends before the later
+   one begins); resize() and visit() pick the same pool *)
+Theorem C08_storage_disjoint : forall fs rs tot,
+  assign (repeat 0 npools) fs = (rs, tot) -> Forall (fun f => 0 <= width f) fs ->
+  length rs = length fs /\
+  (forall i f b e, nth_error fs i = Some f -> nth_error rs i = Some (b, e) ->
+     0 <= b /\ e = b + width f /\ e <= nth (pool_idx (pool_resize f)) tot 0) /\
+  (forall i j fi fj bi ei bj ej, (i < j)%nat ->
+     nth_error fs i = Some fi -> nth_error fs j = Some fj ->
+     nth_error rs i = Some (bi, ei) -> nth_error rs j = Some (bj, ej) ->
+     pool_resize fi = pool_resize fj -> ei <= bj) /\
+  (forall f, pool_visit f = pool_resize f).
+Proof. exact t_storage_disjoint. Qed.
+Print Assumptions C08_storage_disjoint.
+
+(* one write: set-then-get returns the value, every other (feature, sample) cell and mask bit reads as before, and the
+   layout invariant (all blocks in bounds, disjoint) is kept *)
+Theorem C08_storage_set_get : forall st fi s vals st',
+  layout_ok st -> 0 <= fi < zlen (s_feats st) -> 0 <= s < s_samples st ->
+  ds_set st fi s vals = Some st' ->
+  layout_ok st' /\ ds_get st' fi s = Some vals /\
+  (forall fj sj, 0 <= fj < zlen (s_feats st) -> 0 <= sj < s_samples st -> (fj <> fi \/ sj <> s) ->
+     ds_get st' fj sj = ds_get st fj sj).
+Proof. exact t_storage_set_get. Qed.
+Print Assumptions C08_storage_set_get.
+
+(* any history of writes after resize(): every cell reads back the last value written to it, or "missing" *)
+Theorem C08_storage_history : forall N fs t ws st,
+  0 <= N -> Forall (fun f => 0 <= width f) fs -> writes_in_range (zlen fs) N ws ->
+  run_sets (resize N fs t) ws = Some st ->
+  forall fi s, 0 <= fi < zlen fs -> 0 <= s < N -> ds_get st fi s = last_write ws fi s.
+Proof. exact s_storage_history. Qed.
+Print Assumptions C08_storage_history.
+
+(* the views agree: whatever the generator stack, the drop/shuffle flags, the sample and the previous (stale) contents
+   of the row buffer, the flattened row is the concatenation, feature by feature, of the documented encoding
+   (encode_view: one-hot +-1 with C-1 columns, 2*hit-1, row-major values, missing -> NaN) of the per-feature view *)
+Theorem C08_views_agree : forall rd gs fl s r,
+  gens_ok rd gs -> zlen r = columns gs ->
+  flat_row rd gs fl s r =
+  enc_gens (fun g f => encode_view (f_classes (g_desc g)) (select_view rd g f s)) gs fl.
+Proof. exact s_views_agree. Qed.
+Print Assumptions C08_views_agree.
+
+(* the structural part of gens_ok holds for everything fit() builds: process()'s column size is update()'s *)
+Theorem C08_fit_columns : forall st k ids1 ids2, Forall cols_ok (fit st k ids1 ids2).
+Proof. exact fit_cols_ok. Qed.
+Print Assumptions C08_fit_columns.
+
+(* encoders, identity and product features, missing markers *)
+Theorem C08_encoders : forall rd g fl s,
+  (* dropped: every view is "missing" *)
+  (is_dropped fl = true ->
+     select_view rd g fl s = match f_type (g_desc g) with
+                             | TSclass => VSclass (-1)
+                             | TMclass => VMclass (zrepeat (-1) (f_classes (g_desc g)))
+                             | _ => if fsize (g_desc g) =? 1 then VScalar None else VStruct (zrepeat None (fsize (g_desc g)))
+                             end) /\
+  (* identity: the stored value of the source at the (possibly permuted) sample; missing -> -1 / NaN *)
+  (is_dropped fl = false -> g_kind g <> GProduct -> g_kind g <> GGradient ->
+     select_view rd g fl s =
+     match f_type (g_desc g), rd (g_o1 g) (eff_sample fl s) with
+     | TSclass, Some v => VSclass (hd 0 v)        | TSclass, None => VSclass (-1)
+     | TMclass, Some v => VMclass v               | TMclass, None => VMclass (zrepeat (-1) (f_classes (g_desc g)))
+     | _, Some v => if fsize (g_desc g) =? 1 then VScalar (Some (hd 0 v)) else VStruct (map Some v)
+     | _, None => if fsize (g_desc g) =? 1 then VScalar None else VStruct (zrepeat None (fsize (g_desc g)))
+     end) /\
+  (* product: the product of the two sources, missing as soon as one of them is *)
+  (is_dropped fl = false -> g_kind g = GProduct -> g_desc g = f64 1 1 1 ->
+     select_view rd g fl s =
+     VScalar (match rd (g_o1 g) (eff_sample fl s), rd (g_o2 g) (eff_sample fl s) with
+              | Some a, Some b => Some (hd 0 a * hd 0 b)
+              | _, _ => None
+              end)) /\
+  (* one-hot with C-1 columns: +1 at the label, -1 elsewhere, the last class is all -1 *)
+  (forall c l j, 0 <= l -> 0 <= j < c - 1 ->
+     zlen (encode_view c (VSclass l)) = c - 1 /\
+     znth j (encode_view c (VSclass l)) None = Some (if j =? l then 1 else -1)) /\
+  (forall c, 1 <= c -> encode_view c (VSclass (-1)) = zrepeat None (c - 1)) /\
+  (* multi-label: 2*hit-1 *)
+  (forall c h, 0 <= hd 0 h -> encode_view c (VMclass h) = map (fun x => Some (2 * x - 1)) h) /\
+  (forall c, encode_view c (VMclass (zrepeat (-1) c)) = zrepeat None c).
+Proof. exact t_encoders. Qed.
+Print Assumptions C08_encoders.
+
+(* feature / column bookkeeping of dataset_t::update *)
+Theorem C08_bookkeeping : forall gs,
+  Forall (fun g => 0 <= dcols g) (all_feats gs) ->
+  columns gs = zlen (column_mapping gs) /\
+  columns gs = zsum (map dcols (all_feats gs)) /\
+  features gs = zlen (feature_mapping gs) /\ features gs = zlen (all_feats gs) /\
+  (forall f, 0 <= f < features gs -> locate gs 0 f = Some (znth f (feature_mapping gs) (0, 0))) /\
+  (forall f i, 0 <= f < features gs ->
+     0 <= i < dcols (znth f (all_feats gs) (mkG GScalar 0 0 dflt_feature 1)) ->
+     column2feature gs (col_offset gs f + i) = f /\ 0 <= col_offset gs f + i < columns gs).
+Proof. exact s_bookkeeping. Qed.
+Print Assumptions C08_bookkeeping.
+
+(* drop / shuffle histories: after any accepted history the flag of every feature is the one given by the last operation
+   that addressed it since the last undo (so an operation on g changes exactly g), undrop/unshuffle restore the
+   original state of every feature; a dropped feature reads as missing, a shuffled one through its permutation *)
+Theorem C08_history : forall gs ops fl,
+  run_ops gs (flags_init gs) ops = Some fl ->
+  (forall f, 0 <= f < features gs -> flag_of gs fl f = spec_flag ops f) /\
+  (forall f, spec_flag (ops ++ [OUndrop]) f = Normal /\ spec_flag (ops ++ [OUnshuffle]) f = Normal) /\
+  (forall f g, f <> g -> spec_flag (ops ++ [ODrop g]) f = spec_flag ops f /\ spec_flag (ops ++ [ODrop g]) g = Dropped) /\
+  (forall f g p, f <> g -> spec_flag (ops ++ [OShuffle g p]) f = spec_flag ops f /\
+                           spec_flag (ops ++ [OShuffle g p]) g = Shuffled p) /\
+  (forall p s, p <> [] -> eff_sample (Shuffled p) s = znth s p 0) /\
+  (forall s, eff_sample Normal s = s).
+Proof. exact t_history. Qed.
+Print Assumptions C08_history.
+
+(* out-of-range sample / feature indices are rejected before anything is read; accepted calls only carry valid indices *)
+Theorem C08_range_rejected : forall rd n gs fl samples f st,
+  (Exists (fun s => s < 0 \/ n <= s) samples ->
+     flatten rd n gs fl samples = None /\ select rd n gs fl samples f = None) /\
+  (Exists (fun s => s < 0 \/ s_samples st <= s) samples ->
+     targets st samples = None /\ target_select st samples = None) /\
+  (~ 0 <= f < features gs ->
+     select rd n gs fl samples f = None /\ apply_op gs fl (ODrop f) = None /\
+     forall p, apply_op gs fl (OShuffle f p) = None) /\
+  (forall rows, flatten rd n gs fl samples = Some rows -> Forall (fun s => 0 <= s < n) samples) /\
+  (forall vs, select rd n gs fl samples f = Some vs -> Forall (fun s => 0 <= s < n) samples /\ 0 <= f < features gs) /\
+  (samples <> [] -> Forall (fun s => 0 <= s < n) samples -> flatten rd n gs fl samples <> None).
+Proof. exact s_range_rejected. Qed.
+Print Assumptions C08_range_rejected.
+
+(* accepted reads stay inside the pool: the cell of a valid (feature, sample) lies inside the feature's block *)
+Theorem C08_reads_in_bounds : forall st fj sj,
+  layout_ok st -> 0 <= fj < zlen (s_feats st) -> 0 <= sj < s_samples st ->
+  let g := znth fj (s_feats st) dflt_feature in
+  0 <= cell_addr st fj sj /\
+  cell_addr st fj sj + width g <= zlen (nth (pool_idx (pool_visit g)) (s_pools st) []).
+Proof. exact t_reads_in_bounds. Qed.
+Print Assumptions C08_reads_in_bounds.
+
+(* ---- non-vacuity ------------------------------------------------------------------------------------------ *)
 Example C08_nonvacuous_mask :
   zlen (mask_zero 13) = src_mask_bytes 13 /\ setbit (mask_zero 13) 9 = [0; 64] /\
   getbit (setbit (mask_zero 13) 9) 9 = true /\ getbit (setbit (mask_zero 13) 9) 8 = false.
 Proof. vm_compute. repeat split; reflexivity. Qed.
+
+Definition ex_feats : list feature :=
+  [mkF TSclass 3 1 1 1; mkF TU08 0 1 1 1; mkF TMclass 2 1 1 1; mkF TF32 0 2 1 2; mkF TF32 0 1 1 1].
+Definition ex_writes : list write := [(0, 1, [2]); (1, 0, [7]); (2, 2, [1; 0]); (3, 1, [1; 2; 3; 4]); (1, 0, [9]); (4, 0, [5])].
+Definition ex_store : store :=
+  match run_sets (resize 3 ex_feats 9) ex_writes with Some st => st | None => resize 0 [] 0 end.
+Definition ex_gens : gens :=
+  [fit ex_store GSclass [] []; fit ex_store GStruct [] []; fit ex_store GProduct [] []; fit ex_store GMclass [] []].
+
+Example C08_nonvacuous_storage :
+  fst (assign (repeat 0 npools) ex_feats) = [(0, 1); (1, 2); (2, 4); (0, 4); (4, 5)] /\
+  writes_in_range (zlen ex_feats) 3 ex_writes /\
+  run_sets (resize 3 ex_feats 9) ex_writes <> None /\
+  ds_get ex_store 1 0 = Some [9] /\ ds_get ex_store 3 1 = Some [1; 2; 3; 4] /\ ds_get ex_store 3 0 = None.
+Proof.
+  split; [vm_compute; reflexivity|]. split; [repeat constructor; cbn; lia|].
+  split; [vm_compute; discriminate|]. vm_compute. repeat split; reflexivity.
+Qed.
+
+Example C08_nonvacuous_views :
+  columns ex_gens = 2 + 4 + 3 + 2 /\ features ex_gens = 6 /\
+  map (column2feature ex_gens) (zseq 11) = [0; 0; 1; 1; 1; 1; 2; 3; 4; 5; 5] /\
+  flat_row (ds_reader ex_store) ex_gens (flags_init ex_gens) 0 (zrepeat (Some 99) 11) =
+    [None; None; None; None; None; None; Some 81; Some 45; Some 25; None; None] /\
+  flat_row (ds_reader ex_store) ex_gens (flags_init ex_gens) 1 (zrepeat (Some 99) 11) =
+    [Some (-1); Some (-1); Some 1; Some 2; Some 3; Some 4; None; None; None; None; None] /\
+  run_ops ex_gens (flags_init ex_gens) [OShuffle 1 [1; 2; 0]; ODrop 3; ODrop 7] = None /\
+  (exists fl, run_ops ex_gens (flags_init ex_gens) [OShuffle 1 [1; 2; 0]; ODrop 3] = Some fl /\
+     flat_row (ds_reader ex_store) ex_gens fl 0 (zrepeat None 11) =
+       [None; None; Some 1; Some 2; Some 3; Some 4; Some 81; None; Some 25; None; None]) /\
+  flatten (ds_reader ex_store) 3 ex_gens (flags_init ex_gens) [0; 3] = None /\
+  flatten (ds_reader ex_store) 3 ex_gens (flags_init ex_gens) [2; 0] <> None.
+Proof.
+  vm_compute. repeat split; try reflexivity; try discriminate.
+  eexists. split; reflexivity.
+Qed.
